@@ -27,6 +27,46 @@ def make_cases(ctx, n):
     return out[:n]
 
 
+NEAR_MISSES = [
+    'def e { splitters: a, b, return "x" weighted 1 }',            # trailing comma in the field list
+    'def e { splitters: a b return "x" weighted 1 }',              # missing comma
+    'def e { splitters a return "x" weighted 1 }',                 # missing colon
+    'def e { salt "s" return "x" weighted 1 }',
+    'def e { salt: s return "x" weighted 1 }',                     # salt must be a string literal
+    'def e { salt: "s" salt: "t" return "x" weighted 1 }',         # two salts
+    'def e { splitters: a salt: "s" return "x" weighted 1 }',      # salt after splitters
+    'def e { return "x" weighted 1, }',                            # trailing comma in the group list
+    'def e { return "x" 1 }', 'def e { return "x" weighted }', 'def e { return weighted 1 }', 'def e { return "x" weighted -1 }',
+    'def e { return "x" weighted 1 "y" weighted 1 }', 'def e { return x weighted 1 }', 'def e { return (1, 2) weighted 1 }',
+    'def e { return "x" weighted "1" }', 'def e { return "x" weighted 1.}', 'def e { return "x" weighted .5 }', 'def e { return "x" weighted 1e3 }',
+    'def e { }', 'def e { return }', 'def { return "x" weighted 1 }', 'def "e" { return "x" weighted 1 }', 'def 1e { return "x" weighted 1 }',
+    'e { return "x" weighted 1 }', 'def e return "x" weighted 1', 'def e { return "x" weighted 1', 'def e return "x" weighted 1 }',
+    'def e { return "x" weighted 1 } }', 'def e {{ return "x" weighted 1 }}', 'def e ( return "x" weighted 1 )',
+    'def e { if a == 1 return "x" weighted 1 }', 'def e { if a == 1 { return "x" weighted 1 }', 'def e { if { return "x" weighted 1 } }',
+    'def e { if a { return "x" weighted 1 } }', 'def e { if a == { return "x" weighted 1 } }', 'def e { if a == 1 == 2 { return "x" weighted 1 } }',
+    'def e { if a = 1 { return "x" weighted 1 } }', 'def e { if a === 1 { return "x" weighted 1 } }', 'def e { if a <> 1 { return "x" weighted 1 } }',
+    'def e { if a => 1 { return "x" weighted 1 } }', 'def e { if a =< 1 { return "x" weighted 1 } }', 'def e { if a ! = 1 { return "x" weighted 1 } }',
+    'def e { if a > = 1 { return "x" weighted 1 } }', 'def e { if not { return "x" weighted 1 } }', 'def e { if a == 1 and { return "x" weighted 1 } }',
+    'def e { if and a == 1 { return "x" weighted 1 } }', 'def e { if a == 1 or or b == 2 { return "x" weighted 1 } }',
+    'def e { if a in () { return "x" weighted 1 } }', 'def e { if a in (1,) { return "x" weighted 1 } }', 'def e { if a in (1 2) { return "x" weighted 1 } }',
+    'def e { if a in 1, 2 { return "x" weighted 1 } }', 'def e { if a in [1, 2] { return "x" weighted 1 } }', 'def e { if (a == 1 { return "x" weighted 1 } }',
+    'def e { if a == 1) { return "x" weighted 1 } }', 'def e { if a not 1 { return "x" weighted 1 } }', 'def e { if a is 1 { return "x" weighted 1 } }',
+    'def e { if a == 1 { return "x" weighted 1 } else { return "y" weighted 1 } else { return "z" weighted 1 } }',
+    'def e { if a == 1 { return "x" weighted 1 } else { return "y" weighted 1 } else if a == 2 { return "z" weighted 1 } }',
+    'def e { else { return "y" weighted 1 } }', 'def e { else if a == 1 { return "y" weighted 1 } }', 'def e { if a == 1 { return "x" weighted 1 } elif a == 2 { return "y" weighted 1 } }',
+    'def e { if a == 1 { return "x" weighted 1 } else if { return "y" weighted 1 } }', 'def e { if a == 1 { return "x" weighted 1 } else return "y" weighted 1 }',
+    'def e { if a == 1 { return "x" weighted 1 } return "y" weighted 1 }', 'def e { return "x" weighted 1 if a == 1 { return "y" weighted 1 } }',
+    'def e { if a == 1 { } }', 'def e { if a == 1 { if b == 2 { } } }', 'def e { return "x" weighted 1; }', 'def e { return "x" weighted 1 };',
+    'def e { return "x\n" weighted 1 }'.replace("\\n", "\n"), 'def e { return "x weighted 1 }', "def e { return 'x\" weighted 1 }", 'def e { return "x" weighted 1 } // c\n junk',
+    'def e { return "x" weighted 1 } def', 'def def { return "x" weighted 1 }', 'def return { return "x" weighted 1 }', 'def e { splitters: if return "x" weighted 1 }',
+    'def e { splitters: a, in return "x" weighted 1 }', 'DEF e { return "x" weighted 1 }', 'def e { RETURN "x" weighted 1 }', 'def e { return "x" WEIGHTED 1 }',
+    'def e { return "x" weighted 1 } /*', 'def e { return "x" weighted 1 } */', '/* def e { return "x" weighted 1 }', '// def e { return "x" weighted 1 }', '',  ' ', '\n',
+    'def e { return - "x" weighted 1 }', 'def e { return --1 weighted 1 }', 'def e { return - - 1 weighted 1 }', 'def e { return +1 weighted 1 }',
+    'def e { return 1. weighted 1 }', 'def e { return .1 weighted 1 }', 'def e { return 1_000 weighted 1 }', 'def e { return 0x10 weighted 1 }', 'def e { return 1e5 weighted 1 }',
+    'def e { if a == 1 { return "x" weighted 1 } else  if a == 2 { return "y" weighted 1 } else{return "z" weighted 1} }extra',
+]
+
+
 def impl_compile(text):
     from pyab_experiment.experiment_evaluator import ExperimentEvaluator
     from pyab_experiment.utils.wraper_functions import parse_source
@@ -91,7 +131,7 @@ def run(ctx):
                          "operator, double mutation) of generated experiments, de-duplicated by text, classified by an "
                          "independent recogniser of the documented grammar; every mutant counts as non-trivial")
     ctx.extra["table_obligations"] = 3
-    run_stream(ctx, make_cases(ctx, n))
+    run_stream(ctx, [("near-miss", t) for t in NEAR_MISSES] + make_cases(ctx, n))
 
 
 def search(ctx):
